@@ -492,6 +492,9 @@ def c14_jobs(tier, seed, bin_dir, replay):
     js = shards(bin_dir, "c14", seed, tier, 1600, 80000)
     cont0 = {"EGGLOG_PARALLEL_INTRA_CONTAINER_CUTOFF": "0", "EGGLOG_PARALLEL_INTER_CONTAINER_CUTOFF": "0", "EGGLOG_PARALLEL_REBUILD_CUTOFF": "0"}
     js.append(eggmon(bin_dir, "c14", "c14-par4-containers0", seed * 1000 + 97, tier, n=(60 if q else 4000), threads=4, env=cont0, extra={"big-every": 20}))
+    # hostile blocks only (in-place rebuilt container colliding with an older/younger equal one), parallel rebuild
+    for j in (2, 4):
+        js.append(eggmon(bin_dir, "c14", f"c14-par{j}-hostile", seed * 1000 + 90 + j, tier, n=(700 if q else 30000), threads=j, env=cont0, extra={"big-every": 0, "hostile-only": 1}))
     js.append(eggmon(bin_dir, "c14", "c14-par4-zero", seed * 1000 + 99, tier, n=(30 if q else 3000), threads=4, env=ALL_ZERO, extra={"big-every": 0}))
     return js
 
